@@ -155,6 +155,16 @@ let handle ws =
     words_hex (snd (zuc_keystream (nat (int_of_string nw)) (zuc_init (bytes_of_hex key) (bytes_of_hex iv))))
   | ["zuc256ks"; key; iv; nw] ->
     words_hex (snd (zuc_keystream (nat (int_of_string nw)) (zuc256_init (bytes_of_hex key) (bytes_of_hex iv))))
+  | [("zuckss" | "zuc256kss") as op; key; iv; items] ->
+    (* one state through several generate calls (`w` = zuc_generate_keyword); compared with the single call for the total *)
+    let s0 = if op = "zuckss" then zuc_init (bytes_of_hex key) (bytes_of_hex iv) else zuc256_init (bytes_of_hex key) (bytes_of_hex iv) in
+    let its = String.split_on_char ',' items in
+    let (s', zs) = List.fold_left (fun (s, acc) it ->
+        if it = "w" then (let (s1, z) = zuc_keyword s in (s1, acc @ [z]))
+        else (let (s1, r) = zuc_keystream (nat (min 8 (int_of_string it))) s in (s1, acc @ r))) (s0, []) its in
+    let total = List.fold_left (fun a it -> a + (if it = "w" then 1 else min 8 (int_of_string it))) 0 its in
+    let (s1, z1) = zuc_keystream (nat total) s0 in
+    if zs = z1 && s' = s1 then words_hex zs else "MODEL-IMPL-SPEC-DIFFER " ^ words_hex zs ^ " " ^ words_hex z1
   | ["zucenc"; key; iv; d] ->
     let d = bytes_of_hex d in
     let s = zuc_init (bytes_of_hex key) (bytes_of_hex iv) in
